@@ -297,7 +297,7 @@ impl std::str::FromStr for Relation {
         let mut tokens = tokens.into_iter().peekable();
 
         fn eat_whitespace(tokens: &mut Peekable<impl Iterator<Item = (SyntaxKind, String)>>) {
-            while let Some((WHITESPACE, _)) = tokens.peek() {
+            while let Some((WHITESPACE | NEWLINE, _)) = tokens.peek() {
                 tokens.next();
             }
         }
@@ -339,7 +339,7 @@ impl std::str::FromStr for Relation {
             let mut version_string = String::new();
             while let Some((kind, s)) = tokens.peek() {
                 match kind {
-                    R_PARENS => break,
+                    R_PARENS | WHITESPACE | NEWLINE => break,
                     IDENT | COLON => version_string.push_str(s),
                     n => return Err(format!("Unexpected token: {:?}", n)),
                 }
@@ -370,7 +370,7 @@ impl std::str::FromStr for Relation {
                         Some((IDENT, s)) => archs.push(format!("!{}", s)),
                         _ => return Err("Expected architecture name".to_string()),
                     },
-                    Some((WHITESPACE, _)) => {}
+                    Some((WHITESPACE | NEWLINE, _)) => {}
                     Some((R_BRACKET, _)) => break,
                     _ => return Err("Expected architecture name".to_string()),
                 }
@@ -397,7 +397,7 @@ impl std::str::FromStr for Relation {
                         profile.push(BuildProfile::Disabled(profile_name));
                     }
                     Some((IDENT, s)) => profile.push(BuildProfile::Enabled(s)),
-                    Some((WHITESPACE, _)) | Some((COMMA, _)) => {}
+                    Some((WHITESPACE | NEWLINE, _)) | Some((COMMA, _)) => {}
                     Some((R_ANGLE, _)) => break,
                     _ => return Err("Expected profile name".to_string()),
                 }
